@@ -76,6 +76,45 @@ quantities! {
     Frequency, frequency, hertz;
 }
 
+/// The same quantities over a NON-SI system of base units (millimetre, gram): the
+/// crate's conversions are generic over uom's unit system, a device author may use any.
+mod mm_g {
+    use scpi::units::uom::si;
+    // (what `uom::ISQ!(uom::si, f64, (millimeter, gram, second, ampere, kelvin, mole, candela))` expands to)
+    pub type Units = dyn si::Units<
+        f64,
+        length = si::length::millimeter,
+        mass = si::mass::gram,
+        time = si::time::second,
+        electric_current = si::electric_current::ampere,
+        thermodynamic_temperature = si::thermodynamic_temperature::kelvin,
+        amount_of_substance = si::amount_of_substance::mole,
+        luminous_intensity = si::luminous_intensity::candela,
+    >;
+    pub type ElectricPotential = si::electric_potential::ElectricPotential<Units, f64>;
+    pub type ElectricalResistance = si::electrical_resistance::ElectricalResistance<Units, f64>;
+    pub type Power = si::power::Power<Units, f64>;
+    pub type Energy = si::energy::Energy<Units, f64>;
+    pub type Capacitance = si::capacitance::Capacitance<Units, f64>;
+    pub type Time = si::time::Time<Units, f64>;
+    pub type Frequency = si::frequency::Frequency<Units, f64>;
+}
+
+/// value in the quantity's SI base unit when read into the millimetre-gram system (None: not covered)
+fn conv_mm_g(q: Q, tok: Token) -> Option<Result<f64, Error>> {
+    use scpi::units::uom::si;
+    Some(match q {
+        Q::ElectricPotential => mm_g::ElectricPotential::try_from(tok).map(|v| v.get::<si::electric_potential::volt>()),
+        Q::Power => mm_g::Power::try_from(tok).map(|v| v.get::<si::power::watt>()),
+        Q::Energy => mm_g::Energy::try_from(tok).map(|v| v.get::<si::energy::joule>()),
+        Q::ElectricalResistance => mm_g::ElectricalResistance::try_from(tok).map(|v| v.get::<si::electrical_resistance::ohm>()),
+        Q::Capacitance => mm_g::Capacitance::try_from(tok).map(|v| v.get::<si::capacitance::farad>()),
+        Q::Time => mm_g::Time::try_from(tok).map(|v| v.get::<si::time::second>()),
+        Q::Frequency => mm_g::Frequency::try_from(tok).map(|v| v.get::<si::frequency::hertz>()),
+        _ => return None,
+    })
+}
+
 const PI: f64 = std::f64::consts::PI;
 
 /// (suffix, factor, offset): value_in_base = literal * factor + offset.
@@ -165,6 +204,17 @@ fn check_plain(q: Q, single: bool, lit: &str, suffix: &Option<String>, obs: &Obs
         None => Token::DecimalNumericProgramData(lit.as_bytes()),
     };
     let got = conv(q, single, tok);
+    // the same element read into a non-SI unit system denotes the same quantity
+    if !single {
+        if let Some(other) = conv_mm_g(q, tok) {
+            obs.label("also read into a millimetre-gram unit system");
+            match (&got, &other) {
+                (Ok(a), Ok(b)) => ensure!(close(false, *b, *a, &[*a, 1e3 * *a, 1e6 * *a, 1e9 * *a]), "unit-system", "{q:?} from {lit} {}: {b:e} base units in the millimetre-gram system, {a:e} in SI", suffix.as_deref().unwrap_or("(none)")),
+                (Err(a), Err(b)) => ensure!(a.get_code() == b.get_code(), "unit-system", "{q:?} from {lit} {}: error {} in SI, {} in the millimetre-gram system", suffix.as_deref().unwrap_or("(none)"), a.get_code(), b.get_code()),
+                (a, b) => fail!("unit-system", "{q:?} from {lit} {}: {a:?} in SI, {b:?} in the millimetre-gram system", suffix.as_deref().unwrap_or("(none)")),
+            }
+        }
+    }
     let fo = match suffix {
         None => Some((1.0, 0.0)),
         Some(s) => lookup(q, s),
